@@ -520,6 +520,9 @@ func runPop(w *tr.W, seed int64, sid int, p popT, rnd *rand.Rand, full bool) {
 			w.Emit(tr.M{"ev": "Cand", "sid": sid, "k": k + 1, "short": short, "has": has, "au": c.Au, "hs": echo.Cands[k].Hs,
 				"fts": nn(fts), "ans": ans, "na": nn(p.Na), "fq": fqProj(fqm, fts), "o": observeCand(res, fts, ps[k].addr)})
 			stats["cands"]++
+			if has == 0 {
+				stats["nopayload"]++
+			}
 			if res.NoAnswer {
 				stats["noanswer"]++
 			}
@@ -585,6 +588,9 @@ func runCtx(w *tr.W, seed int64, sid int, c ctxT, rnd *rand.Rand) {
 		w.Emit(tr.M{"ev": "Cand", "sid": sid, "k": 1, "short": c.Short, "has": has, "au": cand.Au, "hs": echo.Hs,
 			"fts": nn(c.Fts), "ans": ans, "na": nn(c.Na), "fq": c.Fq, "o": observeCand(res, c.Fts, ps[0].addr)})
 		stats["ctxs"]++
+		if has == 0 {
+			stats["nopayload"]++
+		}
 		base.Persist()
 		rest := ceremony.VerifNewQualification(cfg, database.NewEpochDb(db, 7))
 		rest.Restore()
